@@ -423,8 +423,12 @@ package factstore
 //@      (forall k int :: 0 <= k && k < len(preds) ==> 0 <= counts[k] && counts[k] <= 4294967296 && 0 <= preds[k].Arity && preds[k].Arity <= 1024)
 
 // A header that is accepted describes non-negative fact counts and arities within the documented limits.
+// ... and the two limit errors are raised only beyond the limits: a predicate of the widest documented arity (1024) and
+// of the largest documented fact count is accepted (the writer accepts it, so the reader must).
 //@ func readHeader(scanner)
 //@   ensures err == nil ==> hdrOK(ret0, ret1)
+//@   guard call Errorf in loop 1: len(arg1) == 2 && (arg1[1] as error) == ErrUnsupportedArity ==> arity < 0 || arity > 1024
+//@   guard call Errorf in loop 1: len(arg1) == 2 && (arg1[1] as error) == ErrTooManyFacts ==> numFacts < 0 || numFacts > 4294967296
 //@   loop 1 invariant 0 <= i && i <= numPreds && numPreds <= 65536 && len(preds) == numPreds && len(predNumFacts) == numPreds
 //@   loop 1 invariant forall k int :: 0 <= k && k < i ==> 0 <= predNumFacts[k] && predNumFacts[k] <= 4294967296 && 0 <= preds[k].Arity && preds[k].Arity <= 1024
 
